@@ -97,8 +97,20 @@ func (g *gen) injectFailure(cmds []Cmd, pos int) {
 				Body: []Cmd{{K: "p", D: l.D}}}
 		default:
 			l.F = true
-			// the command gives up explicitly: it stops its scope, then reports the failure
-			l.S = often(g.rt, 25, "stopfirst")
+			// how the command fails: it returns an error (default), gives up explicitly (stops its
+			// scope, then returns the error), or fails WITHOUT returning an error: it kills its scope
+			// (also after stopping it) or appends an error to it
+			switch k := hx.Uniform(g.rt, 100, "failkind"); {
+			case k < 50:
+			case k < 65:
+				l.S = true
+			case k < 77:
+				l.FK = "stop-kill"
+			case k < 90:
+				l.FK = "kill"
+			default:
+				l.FK = "append"
+			}
 		}
 		return
 	}
